@@ -454,6 +454,25 @@ func run(c *vf.Ctx) {
 			scl, _, _ := e.sess(cl)
 			ssv, _, _ := e.sess(sv)
 			what := "fresh"
+			if rng.Intn(4) == 0 {
+				// a set-up that FAILS half-way: a share of the right type and length that is no usable point (all zero:
+				// a low-order point), or a wrong type - the session keeps its keys, and its numbering
+				bad := make([]byte, 32)
+				typ := "ECDH-X25519"
+				if k, ktyp, err := scl.Encryption().InitKeyClientStart(); err == nil {
+					typ = ktyp
+					_ = k
+				}
+				if rng.Intn(3) == 0 {
+					bad = make([]byte, 31)
+				}
+				_, _, err1 := ssv.Encryption().InitKeyServer(bad, typ)
+				err2 := scl.Encryption().InitKeyClientComplete(bad, typ)
+				events = append(events, map[string]any{"ev": "rekey", "what": "failed-set-up", "server_refused": err1 != nil, "client_refused": err2 != nil})
+				c.Distinct("rekey|failed")
+				sealSome()
+				continue
+			}
 			if lastKx != nil && rng.Intn(2) == 0 {
 				// the same request arrives again at the router that served it
 				ssv, _, _ = e.sess(lastServer)
